@@ -1,12 +1,14 @@
 /-
-  `GHEManager.find_design` for the flat searches as the composition the manager performs:
+  `GHEManager.find_design` for the flat searches as the composition the manager performs, interpreted
+  from the regenerated statement list `Gen.findDesignOps` (manager.py):
   `self._search = design.find_design()` (Bisection1D.search), `ghe.compute_g_functions()` (abstract:
   it replaces the one-height g-function by the three-height one, i.e. the search-stage excess
   `E k ·` by the sizing objective `f k ·`), `ghe.size(HYBRID)` (Report.size, interpreted from the
-  regenerated statement list of GHE.size).
+  regenerated statement list of GHE.size).  The two timer statements do not touch the design.
 -/
 import GHEVerif.Model.Search
 import GHEVerif.Model.Report
+import GHEVerif.Gen.Report
 
 namespace GHEVerif.Pipeline
 open GHEVerif GHEVerif.Search GHEVerif.Report
@@ -24,15 +26,69 @@ inductive Result where
   | pyError (e : PyErr)
   deriving Repr, DecidableEq
 
-/-- `f k` is the sizing objective of candidate `k` (excess as a function of the height with the
-    three-height g-function); `its k`, `brent k` are Brent's iterates and answer on it. -/
+/-- The manager's state while `find_design` runs: `_search` (none before the search), whether the
+    three-height g-function has been computed, and whether `return 0` was reached. -/
+structure MState where
+  search : Option Design
+  threeHeights : Bool
+  returned : Bool
+  deriving Repr, DecidableEq
+
+/-- One statement of `find_design`.  `f k` is the sizing objective of candidate `k` on the
+    three-height g-function, `E k` the search-stage excess (one-height g-function): `size` before
+    `compute_g_functions` would size on `E`.  `_search.ghe` before the search is an AttributeError. -/
+def mgrStep (counts : List Nat) (E : Nat → Rat → Rat) (cfg : Cfg)
+    (f : Nat → Rat → Rat) (its : Nat → List Rat) (brent : Nat → Rat)
+    (s : MState) : MgrOp → Except Result MState
+  | .startTimer => .ok s
+  | .stopTimer => .ok s
+  | .ret0 => .ok { s with returned := true }
+  | .search =>
+    match (bisect1D counts E cfg).1 with
+    | .valueError => .error .valueError
+    | .pyError e => .error (.pyError e)
+    -- the search leaves the GHE initialised (not simulated) at height h
+    | .selected k h p => .ok { s with search := some { field := k, path := p, st := { H := h, simAt := none, returned := 0 } }, threeHeights := false }
+  | .computeG =>
+    match s.search with
+    | none => .error (.pyError .other)
+    | some _ => .ok { s with threeHeights := true }
+  | .size =>
+    match s.search with
+    | none => .error (.pyError .other)
+    | some d =>
+      let obj := if s.threeHeights then f d.field else E d.field
+      match size obj cfg.minH cfg.maxH (its d.field) (brent d.field) d.st with
+      | .error e => .error (.pyError e)
+      | .ok st => .ok { s with search := some { d with st := st } }
+
+def runMgr (counts : List Nat) (E : Nat → Rat → Rat) (cfg : Cfg)
+    (f : Nat → Rat → Rat) (its : Nat → List Rat) (brent : Nat → Rat) :
+    List MgrOp → MState → Except Result MState
+  | [], s => .ok s
+  | op :: ops, s =>
+    if s.returned then .ok s else
+    match mgrStep counts E cfg f its brent s op with
+    | .error r => .error r
+    | .ok s' => runMgr counts E cfg f its brent ops s'
+
+/-- `GHEManager.find_design()` (all properties set): the regenerated statements, run in order. -/
 def findDesign1D (counts : List Nat) (E : Nat → Rat → Rat) (cfg : Cfg)
+    (f : Nat → Rat → Rat) (its : Nat → List Rat) (brent : Nat → Rat) : Result :=
+  match runMgr counts E cfg f its brent Gen.findDesignOps { search := none, threeHeights := false, returned := false } with
+  | .error r => r
+  | .ok s =>
+    match s.search with
+    | none => .pyError .other
+    | some d => .design d
+
+/-- The composition the statements amount to (proved equal in Lemmas/Report). -/
+def findDesign1DSpec (counts : List Nat) (E : Nat → Rat → Rat) (cfg : Cfg)
     (f : Nat → Rat → Rat) (its : Nat → List Rat) (brent : Nat → Rat) : Result :=
   match (bisect1D counts E cfg).1 with
   | .valueError => .valueError
   | .pyError e => .pyError e
   | .selected k h p =>
-    -- the search leaves the GHE initialised (not simulated) at height h
     match size (f k) cfg.minH cfg.maxH (its k) (brent k) { H := h, simAt := none, returned := 0 } with
     | .error e => .pyError e
     | .ok st => .design { field := k, path := p, st := st }
